@@ -1062,6 +1062,20 @@ func (t *treaddir) handle(cs *connState) message {
 	}
 	defer ref.DecRef()
 
+	// The reply (size[4] type[1] tag[2] count[4] data[count]) must fit in the
+	// negotiated message size: ask for, and send, no more than that.
+	count := t.Count
+	msize := atomic.LoadUint32(&cs.messageSize)
+	if msize == 0 {
+		// Default or not yet negotiated.
+		msize = maximumLength
+	}
+	if msize < headerLength+4 {
+		count = 0
+	} else if count > msize-(headerLength+4) {
+		count = msize - (headerLength + 4)
+	}
+
 	var entries []Dirent
 	if err := ref.safelyRead(func() (err error) {
 		// Don't allow reading deleted directories.
@@ -1075,7 +1089,7 @@ func (t *treaddir) handle(cs *connState) message {
 		}
 
 		// Read the entries.
-		entries, err = ref.file.Readdir(t.Offset, t.Count)
+		entries, err = ref.file.Readdir(t.Offset, count)
 		if err != nil && !errors.Is(err, io.EOF) {
 			return err
 		}
@@ -1084,7 +1098,7 @@ func (t *treaddir) handle(cs *connState) message {
 		return newErr(err)
 	}
 
-	return &rreaddir{Count: t.Count, Entries: entries}
+	return &rreaddir{Count: count, Entries: entries}
 }
 
 // handle implements handler.handle.
